@@ -7,33 +7,32 @@ Import ListNotations.
 Open Scope Z_scope.
 
 Lemma integers_any_magnitude c msl z st nillable :
-  st_text_bin st = false ->
   (is_msgpack c = true -> in64 z = false -> ext_leb (Fin (len (str_int z))) msl = true) ->
   leaf_enc c (KInt msl) (DLeaf (LInt z)) = Ok (sleaf c spyne_style (KInt msl) (LInt z))
   /\ leaf_dec c nillable (KInt msl) (sleaf c st (KInt msl) (LInt z)) = Ok (DLeaf (LInt z))
   /\ sleaf_dec c nillable (KInt msl) (sleaf c spyne_style (KInt msl) (LInt z)) = Ok (DLeaf (LInt z)).
 Proof.
-  intros Hst H.
+  intros H.
   assert (Hok : leaf_ok c (KInt msl) (LInt z) = true).
   { unfold leaf_ok, msgpack. destruct (is_msgpack c) eqn:Hm; cbn [andb]; [|reflexivity].
     destruct (in64 z) eqn:Hi; cbn [negb]; [reflexivity|auto]. }
   split; [apply leaf_enc_spec, Hok|]. split.
-  - exact (leaf_dec_spec c st nillable _ _ Hst Hok).
+  - exact (leaf_dec_spec c st nillable _ _ Hok).
   - exact (sleaf_dec_spec c spyne_style nillable _ _ Hok).
 Qed.
 
 Lemma decimals_any_magnitude c msl d st nillable :
-  st_text_bin st = false -> 0 <= d_coef d -> ext_leb (Fin (len (dec_str d))) msl = true ->
+  0 <= d_coef d -> ext_leb (Fin (len (dec_str d))) msl = true ->
   leaf_enc c (KDecimal msl) (DLeaf (LDecimal d)) = Ok (sleaf c spyne_style (KDecimal msl) (LDecimal d))
   /\ leaf_dec c nillable (KDecimal msl) (sleaf c st (KDecimal msl) (LDecimal d)) = Ok (DLeaf (LDecimal d))
   /\ sleaf_dec c nillable (KDecimal msl) (sleaf c spyne_style (KDecimal msl) (LDecimal d))
      = Ok (DLeaf (LDecimal d)).
 Proof.
-  intros Hst Hc Hl.
+  intros Hc Hl.
   assert (Hok : leaf_ok c (KDecimal msl) (LDecimal d) = true).
   { unfold leaf_ok. rewrite Hl, andb_true_r. lia. }
   split; [apply leaf_enc_spec, Hok|]. split.
-  - exact (leaf_dec_spec c st nillable _ _ Hst Hok).
+  - exact (leaf_dec_spec c st nillable _ _ Hok).
   - exact (sleaf_dec_spec c spyne_style nillable _ _ Hok).
 Qed.
 
@@ -48,14 +47,14 @@ Proof.
 Qed.
 
 Lemma reader_reads_conventions c U poly st f x fuel :
-  wf_universe U = true -> (poly = true -> c_iw c = false) -> st_text_bin st = false ->
+  wf_universe U = true -> (poly = true -> c_iw c = false) ->
   member_conf c U poly f x = true -> dmulti f = false -> (vdepth x <= fuel)%nat ->
   (x = DNone -> c_list c = true \/ 0 < df_min f) ->
   fdv c U fuel (df_nillable f) (df_ty f) (senc c U st false (df_ty f) x) = Ok (vnorm x).
 Proof.
-  intros Hwf Hp Hst Hm Hmul Hf Hn. unfold fdv, fdv_gen.
+  intros Hwf Hp Hm Hmul Hf Hn. unfold fdv, fdv_gen.
   apply (fdv_member c U poly st (leaf_dec c) Hwf Hp
-                    (fun nillable k l => leaf_dec_spec c st nillable k l Hst)
+                    (fun nillable k l => leaf_dec_spec c st nillable k l)
                     (leaf_dec_null c) (norm_key_spec c st) (key_name_spec c st) f x fuel Hm Hmul Hf Hn).
 Qed.
 
@@ -94,6 +93,7 @@ Lemma source_tables :
   /\ (forall n mn mx, freq_low (Fin n) (Fin mn) = (n <? mn) /\ freq_high (Fin n) (Fin mx) = (mx <? n)
                       /\ freq_high (Fin n) PosInf = false)
   /\ null_member_is_none = true /\ body_lookup_both_key_forms = true /\ single_none_is_null = true
+  /\ int_slot_float_is_int = true /\ ret_bool_by_identity = true /\ hier_counts_array_items = false
   /\ handlers = expected_handlers
   /\ GMsgpack_key_utf8 = true /\ GJson_key_utf8 = false /\ GYaml_key_utf8 = false
   /\ GMsgpack_writes_bytes = true /\ GJson_base64 = true /\ GYaml_base64 = true.
@@ -102,7 +102,8 @@ Proof.
   split; [exact strip_cond_single|]. split; [exact strip_cond_repeated|].
   split; [intros m; apply (reads_many_spec m)|]. split; [apply (reads_many_spec 0)|].
   split; [exact wrapper_arity_spec|]. split; [exact freq_spec|].
-  destruct repairs_in_place as (A & B & C & _). split; [exact A|]. split; [exact B|]. split; [exact C|].
+  destruct repairs_in_place as (A & B & C & _ & D & E & _ & F). split; [exact A|]. split; [exact B|]. split; [exact C|].
+  split; [exact D|]. split; [exact E|]. split; [exact F|].
   split; [exact handlers_as_modelled|].
   destruct protocol_facts as (j & y & m & _ & _ & mb & jb & yb & _).
   repeat split; assumption.
